@@ -96,6 +96,14 @@ def reactionCtor (param : PyVal α) (order : Int) (checksGiven dontCheckGiven un
   else if unitSelected then reactionCheck param order
   else .ok ()
 
+/-- `Reaction.check_consistent_units` for a Quantity holding `size` values (chemistry.py 601): `self.param.item()` is evaluated
+    OUTSIDE the `try` — for an array-valued rate constant of size ≠ 1 it raises ValueError ("can only convert an array of
+    size 1 to a Python scalar") whatever the dimension and whatever `throw`; a size-1 array is treated like the scalar. -/
+def reactionCheckSized (size : Nat) (param : PyVal α) (order : Int) : Except Err Unit :=
+  match param with
+  | .num _ => .ok ()
+  | .qty _ => if size ≠ 1 then .error .valueError else reactionCheck param order
+
 /-- `check_consistent_units(throw=False)`: `except Exception: return False` -/
 def reactionCheckBool (param : PyVal α) (order : Int) : Bool :=
   match reactionCheck param order with
@@ -319,13 +327,17 @@ def massActionRatePy (k : PyVal α) (cs : List (PyVal α × Nat)) : PyVal α := 
 structure Rxn where
   reac : List (Nat × Nat)
   prod : List (Nat × Nat)
+  /-- inactive (parenthesised) reactants / products: part of the net stoichiometry, not of the mass-action product -/
+  inactReac : List (Nat × Nat) := []
+  inactProd : List (Nat × Nat) := []
   deriving Repr
 
 /-- `sum(reac.values())` -/
 def Rxn.order (r : Rxn) : Int := ((r.reac.map fun p => p.2).sum : Nat)
 
 /-- the reaction of the shared kinetics model (`Model/Kinetics.lean`, properties C03/C04) with a plain rate constant -/
-def Rxn.toKin (k : α) (r : Rxn) : Kinetics.Reaction Nat α := { reac := r.reac, prod := r.prod, param := k }
+def Rxn.toKin (k : α) (r : Rxn) : Kinetics.Reaction Nat α :=
+  { reac := r.reac, prod := r.prod, inactReac := r.inactReac, inactProd := r.inactProd, param := k }
 
 /-- `[exprs[k] for k in names]` on the rate dictionary: `none` = KeyError -/
 def readAll (rates : List (Nat × α)) : List Nat → Option (List α)
